@@ -2,7 +2,7 @@
    Part 1: one token at a time (text, start tag, self-closing tag, end tag). *)
 From Coq Require Import List NArith Bool Lia.
 Import ListNotations.
-From BM Require Import Bytes Utf8 Strings Escape Tokenizer EscapeProofs.
+From BM Require Import Bytes Utf8 Strings Escape Tokenizer EscapeProofs CommentRT.
 Open Scope N_scope.
 
 (* ---- basic scanning facts -------------------------------------------------------------- *)
@@ -305,13 +305,15 @@ Qed.
 Inductive seg :=
 | SText (t : bytes)
 | STag (n : bytes) (a : list attr) (c : tag_close)
-| SEnd (n : bytes).
+| SEnd (n : bytes)
+| SComment (d : bytes).     (* a comment with data d, written with its body escaped *)
 
 Definition seg_bytes (sg : seg) (rest : bytes) : bytes :=
   match sg with
   | SText t => t ++ rest
   | STag n a c => raw_tag n a c rest
   | SEnd n => raw_end n rest
+  | SComment d => render1 (TComment d) ++ rest
   end.
 Definition render_segs (l : list seg) : bytes := fold_right seg_bytes [] l.
 
@@ -320,6 +322,7 @@ Definition seg_ok (sg : seg) : Prop :=
   | SText t => t <> [] /\ no_lt t
   | STag n a _ => name_ok n /\ Forall rattr_ok a /\ is_raw_name n = false
   | SEnd n => name_ok n
+  | SComment _ => True
   end.
 Definition is_text_seg (sg : seg) : bool := match sg with SText _ => true | _ => false end.
 (* no two adjacent text segments *)
@@ -335,14 +338,16 @@ Definition rtok_of (sg : seg) : rtoken :=
   | STag n a CloseStart => RStart n a
   | STag n a CloseSelf => RSelf n a
   | SEnd n => REnd n
+  | SComment d => RComment (escape_comment d)
   end.
 
 Lemma markup_seg_opens sg rest : seg_ok sg -> is_text_seg sg = false ->
   exists r, seg_bytes sg rest = LT :: r /\ opens (seg_bytes sg rest) = true.
 Proof.
-  intros Hok Ht. destruct sg as [t|n a c|n]; [discriminate| |].
+  intros Hok Ht. destruct sg as [t|n a c|n|d]; [discriminate| | |].
   - destruct Hok as (Hn & _ & _). destruct (name_first_letter n Hn) as (c0 & n' & -> & Hc).
     eexists. split; [reflexivity|]. cbn. rewrite Hc. reflexivity.
+  - eexists. split; [reflexivity|]. reflexivity.
   - eexists. split; [reflexivity|]. reflexivity.
 Qed.
 
@@ -361,7 +366,7 @@ Proof.
     assert (Hsep' : separated l) by (destruct l; [exact I | apply Hsep]).
     assert (Hf' : (length l < fuel)%nat) by (simpl in Hf; lia).
     cbn [render_segs fold_right map tokens]. fold (render_segs l).
-    destruct sg as [t|n a c|n]; cbn [seg_bytes rtok_of].
+    destruct sg as [t|n a c|n|d]; cbn [seg_bytes rtok_of].
     + (* text *)
       destruct Hsg as [Hne Hnl].
       assert (Hst : starts_markup (render_segs l)).
@@ -376,15 +381,18 @@ Proof.
     + (* end tag *)
       rewrite next_markup_normal by (apply (markup_seg_opens (SEnd n) (render_segs l)); [exact Hsg | reflexivity]).
       rewrite (next_markup_end n (render_segs l) Hsg). rewrite IH; auto.
+    + (* comment *)
+      rewrite (next_rendered_comment d (render_segs l)). rewrite IH; auto.
 Qed.
 
 
 Lemma seg_bytes_length sg rest : seg_ok sg -> (length rest < length (seg_bytes sg rest))%nat.
 Proof.
-  intros Hok. destruct sg as [t|n a c|n]; cbn [seg_bytes raw_tag raw_end].
+  intros Hok. destruct sg as [t|n a c|n|d]; cbn [seg_bytes raw_tag raw_end].
   - destruct Hok as [Hne _]. rewrite app_length. destruct t; [congruence | simpl; lia].
   - simpl length. rewrite !app_length. destruct c; simpl; lia.
   - simpl length. rewrite !app_length. simpl. lia.
+  - cbn [render1]. rewrite !app_length. simpl. lia.
 Qed.
 
 Lemma render_segs_length l : Forall seg_ok l -> (length l <= length (render_segs l))%nat.
